@@ -53,7 +53,7 @@ func propConfigs() map[string]*PropConfig {
 		Redirect: map[string]string{"(*github.com/cosmos72/gomacro/base.Globals).ReadMultiline": "vhModelReadMultiline", fp + "Comp).Parse": "vhModelParse",
 			fp + "Interp).Cmd": "vhModelCmd", fp + "Interp).RunExpr": "vhModelRunExpr", "(*github.com/cosmos72/gomacro/base.Globals).Print": "vhModelPrint"},
 		Explain: "the real Interp.ReadParseEvalPrint / Read / ParseEvalPrint / Parse / afterEval and Stringer.IncLine run on chunks whose comment prefix and code are symbolic byte strings; the reader, the parser entry (which records Globals.Line and the text it is given), command dispatch, execution and printing are replaced by models"})
-	add(&PropConfig{ID: "C06", Prefix: "VH_C06_", Sets: []HarnessSet{hfiles("fast", fastLib, "fast/c19.go", "fast/c06.go", "fast/c06_address_gen.go", "fast/c06_func_gen.go")},
+	add(&PropConfig{ID: "C06", Prefix: "VH_C06_", Sets: []HarnessSet{hfiles("fast", fastLib, "fast/c19.go", "fast/c06.go", "fast/c06_address_gen.go", "fast/c06_func_gen.go", "fast/c06_call_gen.go")},
 		Redirect: map[string]string{"github.com/cosmos72/gomacro/gls.GoID": "vhModelGoID"},
 		Explain: "pattern C: the real newEnv, NewEnv, newEnv4Func, freeEnv, FreeEnv, freeEnv4Func, MarkUsedByClosure and Var.Address are executed from arbitrary valid pool states; the goroutine identity (assembly) is a model returning a harness variable"})
 	add(&PropConfig{ID: "C28", Prefix: "VH_C28_", StrBytes: 24, Thorough: func(n string) bool { return strings.Contains(n, "_T_") }, Sets: []HarnessSet{hfiles("go/typeutil", "typeutil/c28.go")},
